@@ -127,7 +127,12 @@ theorem textOf_bytes (bs : Bytes) : textOf (bs.map fun b => asciiRune b.toNat) =
 
 theorem upperCodes_bytes (bs : Bytes) :
     upperCodes (bs.map fun b => asciiRune b.toNat) = bs.map fun b => asciiUpper b.toNat := by
-  simp [upperCodes]
+  induction bs with
+  | nil => rfl
+  | cons b bs ih =>
+    simp only [upperCodes, List.map_cons, List.map_map] at ih ⊢
+    rw [ih]
+    rfl
 
 theorem kwTable_find (ty : Int) (e : List Nat × Int) (h : kwTable.find? (fun e => e.2 == ty) = some e) :
     e ∈ kwTable ∧ e.2 = ty := by
